@@ -79,7 +79,9 @@ def frames_for(g, k, unknown_family=False):
             sec.families.append(F(DIBServiceFamily.TUNNELING, 1))
         if g["secrout"]:
             sec.families.append(F(DIBServiceFamily.ROUTING, 1))
-        ext.dibs = [info, fam] + ([sec] if (g.get("secdib", 1) or g["sectun"] or g["secrout"]) else [])
+        has_sec = bool(g.get("secdib", 1) or g["sectun"] or g["secrout"])
+        # the order of the description blocks is up to the device: secured families before or after the supported ones, device information anywhere
+        ext.dibs = [[info, fam] + ([sec] if has_sec else []), ([sec] if has_sec else []) + [fam, info], [info] + ([sec] if has_sec else []) + [fam]][(k + g["tun"] + g["rout"]) % 3]
     rt = lambda b: KNXIPFrame.from_knx(KNXIPFrame.init_from_body(b).to_knx())[0]      # as received from the wire
     if unknown_family and ext is not None:
         # the device lists a service family this library does not know (id 0x0A) in front of the secured ones: whatever the parser makes of
